@@ -45,6 +45,7 @@ def build(chk):
     c_wFromAlpha(chk)
     c_boundaries(chk)
     c_init(chk)
+    c_findvwLTE(chk)
 
 
 def c_findTm(chk):
@@ -173,6 +174,78 @@ def c_boundaries(chk):
         chk.canary(f"findHydroBoundaries.template.{i}", p.pc, Eq(c1, w * gammaSq(m["vp"]) * m["vp"]), func=fn)
     if n == 0:
         chk.undecided.append("template findHydroBoundaries: no path with a matching")
+
+
+def c_findvwLTE(chk):
+    """HydrodynamicsTemplateModel.findvwLTE.  With the definitions of alN and psiN proved in __init__ (for ANY equation of state)
+         3 alN wN = (e+ - e-) - (p+ - p-)/cb^2,   psiN wN = w-,   (nu - 1) cb^2 = 1,   e = w - p       at Tn,
+    the first guard  alN < (1 - psiN)/3  is  p+(Tn) > p-(Tn): the symmetric phase has the larger pressure, nothing drives the wall; and with
+    the template's broken phase (p- = w-/nu) the second guard  alN <= (mu - nu)/(3 mu)  is  w+(Tn)/mu <= p+(Tn): non-positive vacuum
+    energy of the symmetric phase.  Obligations: the static sentinel 0 is returned exactly in these two situations, the runaway sentinel
+    exactly when alN exceeds maxAl(100) or the shooting residual at vJ is negative, and otherwise the result is the root of the shooting
+    residual  _shooting(vw, getVp(min(cb, vw), solveAlpha(vw)))  bracketed by [1e-3, vJ] with the object's tolerances."""
+    fn = f"{TQ}.findvwLTE"
+    ALPHA, GETVP, SHOOT = specfun("solveAlpha"), specfun("getVp"), specfun("shooting")
+    maxal = real("maxAl100")
+    reg = {"HydrodynamicsTemplateModel.maxAl": lambda it, so, a, k: (it.event(kind="contract-call", name="maxAl", args=list(a) + [k.get("upperLimit")]), maxal)[1],
+           "HydrodynamicsTemplateModel.solveAlpha": lambda it, so, a, k: ALPHA(a[0]),
+           "HydrodynamicsTemplateModel.getVp": lambda it, so, a, k: GETVP(a[0], a[1]),
+           "HydrodynamicsTemplateModel._shooting": lambda it, so, a, k: SHOOT(a[0], a[1])}
+    from wgvc import stubs
+    vJt = real("vJt")
+
+    def resid(vw):
+        vm = sp.Piecewise((cb, Lt(cb, vw)), (vw, True))
+        return SHOOT(vw, GETVP(vm, ALPHA(vw)))
+    # the EOS quantities at Tn behind alN and psiN
+    pP, pM, wM = real("pPlusN"), real("pMinusN"), real("wMinusN")
+    eos = POS + [Eq(psi * wN, wM), Eq((nu_ - 1) * cb**2, 1),
+                 Eq(3 * alN * wN, (wN - pP) - (wM - pM) - (pP - pM) / cb**2)]
+    tmpl_low = [Eq(pM * nu_, wM)]
+
+    def mk(it):
+        for c in POS + [Gt(vJt, sym.R(1, 1000)), Lt(vJt, 1)]:
+            it.assume(c)
+        return make_template(), [], {}, {}
+    paths = chk.summarize(MODULE, "HydrodynamicsTemplateModel.findvwLTE", mk, registry=reg, externals=stubs.EXTERNALS)
+    rets = sel(paths)
+    g1 = Gt(pP, pM)                       # no driving pressure
+    g2 = Le(wN / mu_, pP)                 # vacuum energy of the symmetric phase <= 0
+    kinds = {"zero": 0, "one": 0, "root": 0}
+    for i, p in enumerate(rets):
+        v = p.value
+        rs = [e for e in p.events if e.get("kind") == "root_scalar" and e.get("site", "").endswith("findvwLTE")]
+        if isinstance(v, (int, float)) or (isinstance(v, sp.Basic) and v.is_number):
+            if v == 0:
+                kinds["zero"] += 1
+                chk.vc(f"template.findvwLTE.static-sentinel-reason.{i}", p.pc + eos + tmpl_low, Or(g1, g2), func=fn)
+                chk.canary(f"template.findvwLTE.static-sentinel-reason.{i}", p.pc + eos + tmpl_low, And(g1, g2), func=fn)
+                chk.reach(f"template.findvwLTE.static.{i}", p.pc + eos + tmpl_low, func=fn)
+                continue
+            if v == 1:
+                kinds["one"] += 1
+                chk.vc(f"template.findvwLTE.runaway-sentinel-reason.{i}", p.pc + eos + tmpl_low,
+                       And(Not(g1), Not(g2), Or(Gt(alN, maxal), Lt(resid(vJt), 0))), func=fn)
+                calls = [e for e in p.events if e.get("name") == "maxAl"]
+                chk.vc(f"template.findvwLTE.maxAl-upper-limit.{i}", p.pc, sym.to_sym(bool(calls) and all(100 in [x for x in e["args"] if isinstance(x, int)] for e in calls)), func=fn)
+                continue
+        kinds["root"] += 1
+        if len(rs) != 1 or "root" not in rs[0]:
+            chk.undecided.append("template findvwLTE: returning path without its root find")
+            continue
+        e = rs[0]
+        chk.vc(f"template.findvwLTE.not-a-sentinel-case.{i}", p.pc + eos + tmpl_low, And(Not(g1), Not(g2), Le(alN, maxal), Ge(resid(vJt), 0)), func=fn)
+        chk.vc(f"template.findvwLTE.result-is-bracketed-root.{i}", p.pc, And(Eq(v, e["root"]), Eq(e["a"], sym.R(1, 1000)), Eq(e["b"], vJt),
+                                                                            Eq(e["xtol"], real("atol")), Eq(e["rtol"], real("rtol"))), func=fn)
+        chk.vc(f"template.findvwLTE.root-function-is-shooting-residual.{i}", p.pc, Eq(e["generic_f"], resid(e["generic_x"])), func=fn)
+        chk.vc(f"template.findvwLTE.root-solves-residual.{i}", p.pc + [e["converged"]], Eq(resid(v), 0), func=fn)
+        chk.canary(f"template.findvwLTE.root-solves-residual.{i}", p.pc + [e["converged"]], Eq(resid(v), 1), func=fn)
+        chk.reach(f"template.findvwLTE.root.{i}", p.pc + eos + tmpl_low, func=fn)
+    if min(kinds.values()) == 0:
+        chk.undecided.append(f"template findvwLTE: path classes missing {kinds}")
+    for p in sel(paths, "raise"):
+        if p.exc.cls != "ValueError":
+            chk.undecided.append(f"template findvwLTE raises {p.exc.cls}")
 
 
 def c_init(chk):
